@@ -1908,6 +1908,48 @@ func runC20(seed int64, n int, long bool) {
 			fail("c20-live-touched", "reclamation changed live keys\n live keys before: "+want+"\n stored after    : "+after.Text, nil)
 		}
 		count("reclamation_steps")
+		// a second generation on the same handle: keys that expire EARLIER than anything the first
+		// run left behind (new keys already expired, and live keys whose expiry is moved into the
+		// past) must go in the next run
+		if len(sum.Failures) == 0 && size > 0 {
+			gen2 := 0
+			for i := 0; i < 12; i++ {
+				k := fmt.Sprintf("g2_%d", i)
+				switch i % 5 {
+				case 0:
+					_ = x.DB.Str().Set(k, "v")
+				case 1:
+					_, _ = x.DB.List().PushBack(k, "a")
+				case 2:
+					_, _ = x.DB.Set().Add(k, "a")
+				case 3:
+					_, _ = x.DB.Hash().Set(k, "f", "v")
+				default:
+					_, _ = x.DB.ZSet().Add(k, "m", 1)
+				}
+				if x.DB.Key().ExpireAt(k, deadTime(i)) == nil {
+					gen2++
+				}
+			}
+			// shorten the life of one surviving key with a time-to-live
+			if ks, err := x.DB.Key().Keys("p*"); err == nil {
+				for _, k := range ks {
+					if k.ETime != nil {
+						if x.DB.Key().ExpireAt(k.Key, time.Now().Add(-time.Second)) == nil {
+							gen2++
+							live--
+						}
+						break
+					}
+				}
+			}
+			cnt2, err := x.DB.Key().DeleteExpired(0)
+			rc2, _ := rowCounts(x)
+			if err != nil || cnt2 != gen2 || rc2["rkey"] != live {
+				fail("c20-count", fmt.Sprintf("second run on the same handle: DeleteExpired(0) removed %d keys (%v), %d had expired since the first run (new keys already expired, one key whose expiry was moved into the past); %d key rows remain, %d keys are live", cnt2, err, gen2, rc2["rkey"], live), nil)
+			}
+			count("second_generation_steps")
+		}
 		x.Close()
 	}
 	limit := 75 * time.Second
